@@ -39,7 +39,7 @@ def gen_lit(rng):
     if r < 0.65:
         return {"t": "bare", "w": rng.choice(["-", "_", ".", "a[0]", "x=1", "#tag", "a.b.c", "%", "@home"])}
     for _ in range(20):
-        s = gen.text(rng, rng.choice(["multi", "path", "delim", "nested1", "nested2", "backslash", "exotic", "numlike", "boolnone", "empty", "punct", "word", "padded"]))
+        s = gen.text(rng, rng.choice(["multi", "path", "delim", "nested1", "nested2", "backslash", "exotic", "numlike", "boolnone", "empty", "punct", "word", "padded", "linesep", "vocab"]))
         if c01.str_in_dom(s) and not (s and (s[0] in "'\"" and s[-1:] in "'\"" and len(s) == 1)):
             break
     else:
@@ -216,6 +216,24 @@ def process(ctx: Ctx, cases: list[dict]) -> None:
                 ctx.disagree("NativeParser.parse_string", {"text": text}, m, ip)
 
 
+def gen_deep(rng):
+    """the depth boundary of the supported domain (nesting depth <= 9, i.e. key paths of up to 10 entries): a chain of nested
+    dicts that ends in a quoted string, directly or as a list item, with a few siblings on the way"""
+    quoted = {"t": "quoted", "q": rng.choice("'\""), "body": rng.choice(["deep word", "x y", "a;b", "w", "1", "true"])}
+    if rng.random() < 0.5:
+        n = rng.randint(6, 9)                      # n dicts + key: path of n + 1 <= 10
+        items = [{"i": "kv", "k": "leaf", "v": quoted}]
+    else:
+        n = rng.randint(5, 8)                      # n dicts + key + index: path of n + 2 <= 10
+        xs = [{"e": "lit", "lit": gen_lit(rng)} for _ in range(rng.randint(0, 2))] + [{"e": "lit", "lit": quoted}]
+        items = [{"i": "lst", "k": "items", "xs": xs}]
+    for lvl in range(n, 0, -1):
+        sibs = gen_items(rng, 0, comments=False, n=rng.randint(0, 2))
+        sibs = [x for x in sibs if x.get("k") not in (f"level{lvl}", "leaf", "items")]
+        items = sibs[:1] + [{"i": "sub", "k": f"level{lvl}", "items": items}] + sibs[1:]
+    return items
+
+
 def mk_case(rng, items, file=False):
     text = render(rng, items)
     return {"kind": "render", "text": text, "den": enc(den_items(items)), "file": file, "nontrivial": _nontrivial(items),
@@ -244,6 +262,11 @@ def run(ctx: Ctx) -> None:
         items = gen_items(rng, rng.choice([0, 1, 2, 2, 3, 4]))
         for j in range(5):
             cases.append(mk_case(rng, items, file=(j == 0)))
+    for _ in range(ctx.n(40, 800)):
+        items = gen_deep(rng)
+        for j in range(2):
+            c = mk_case(rng, items, file=(j == 0)); c["tags"] = c["tags"] + ["deep"]
+            cases.append(c)
     if ctx.tier == "thorough" and ctx.scale == 1.0:
         import itertools
         toks = ["a", "1", ";", "b", "{", "}"]      # a 1 ; b { }
